@@ -214,6 +214,33 @@ func (r *replica) end(c *callRec) {
 	r.mu.Unlock()
 }
 
+// Guarded views of the monitor state: a background task the composite leaked
+// (candidate defect P1 leaves some behind) may still be calling the replica
+// while the oracle looks.
+func (r *replica) nCalls() int {
+	r.mu.Lock()
+	defer r.mu.Unlock()
+	return r.calls
+}
+
+func (r *replica) nSizePanics() int {
+	r.mu.Lock()
+	defer r.mu.Unlock()
+	return r.sizePanics
+}
+
+func (r *replica) stormed() bool {
+	r.mu.Lock()
+	defer r.mu.Unlock()
+	return r.storm
+}
+
+func (r *replica) corrupt() []string {
+	r.mu.Lock()
+	defer r.mu.Unlock()
+	return append([]string(nil), r.corruptPuts...)
+}
+
 func (r *replica) opStart() {
 	r.mu.Lock()
 	r.opCalls = 0
